@@ -132,10 +132,12 @@ class AsyncTask(futures.FutureBase):
             except Exception:
                 # the name is only used by the profiler: arguments whose repr() fails (by
                 # recursing too deep or in any other way) are left out of it
-                self._name = "%06d.%s" % (
-                    self._id,
-                    core_inspection.get_full_name(self.fn),
-                )
+                try:
+                    fn_name = core_inspection.get_full_name(self.fn)
+                except Exception:
+                    # a callable object without a __name__ is named by its str()
+                    fn_name = "<n/a: str() failed>"
+                self._name = "%06d.%s" % (self._id, fn_name)
         return self._name
 
     def collect_perf_stats(self):
